@@ -1,1 +1,102 @@
-fn main(){}
+#![allow(dead_code)]
+//! svcheck — property-based / fuzz verification driver for dalance/sv-parser.
+//!   svcheck <ID> --tier quick|thorough [--seed N] [--root DIR] [--only CAMPAIGN]
+//!   svcheck <ID> --replay FILE
+//!   svcheck worker <kind> <args…>     (isolated child used by C09/C10)
+
+mod corpus;
+mod dev;
+mod engine;
+mod findings;
+mod gen;
+mod lexer;
+mod props;
+mod sv;
+mod tape;
+
+use engine::{Ctx, Tier};
+use std::path::PathBuf;
+
+fn usage() -> ! {
+    eprintln!("usage: svcheck <ID> [--tier quick|thorough] [--seed N] [--root DIR] [--only CAMPAIGN] [--replay FILE]");
+    std::process::exit(2);
+}
+
+fn main() {
+    let args: Vec<String> = std::env::args().skip(1).collect();
+    if args.is_empty() {
+        usage();
+    }
+    if args[0] == "dev" {
+        std::process::exit(dev::run(&args[1..]));
+    }
+    if args[0] == "worker" {
+        std::process::exit(props::worker(&args[1..]));
+    }
+    let id = args[0].to_uppercase();
+    let mut tier = match std::env::var("VERIF_TIER").ok().as_deref() {
+        Some("thorough") => Tier::Thorough,
+        _ => Tier::Quick,
+    };
+    let mut seed: u64 = std::env::var("VERIF_SEED").ok().and_then(|s| s.parse().ok()).unwrap_or(0);
+    let mut root = std::env::var("VERIF_ROOT").map(PathBuf::from).unwrap_or_else(|_| std::env::current_dir().unwrap());
+    let mut replay: Option<PathBuf> = None;
+    let mut only: Option<String> = None;
+    let mut i = 1;
+    while i < args.len() {
+        match args[i].as_str() {
+            "--tier" => {
+                i += 1;
+                tier = match args.get(i).map(|s| s.as_str()) {
+                    Some("quick") => Tier::Quick,
+                    Some("thorough") => Tier::Thorough,
+                    _ => usage(),
+                };
+            }
+            "--seed" => {
+                i += 1;
+                seed = args.get(i).and_then(|s| s.parse().ok()).unwrap_or_else(|| usage());
+            }
+            "--root" => {
+                i += 1;
+                root = PathBuf::from(args.get(i).unwrap_or_else(|| usage()));
+            }
+            "--replay" => {
+                i += 1;
+                replay = Some(PathBuf::from(args.get(i).unwrap_or_else(|| usage())));
+            }
+            "--only" => {
+                i += 1;
+                only = Some(args.get(i).unwrap_or_else(|| usage()).clone());
+            }
+            _ => usage(),
+        }
+        i += 1;
+    }
+    let threads = std::env::var("VERIF_THREADS").ok().and_then(|s| s.parse().ok()).unwrap_or(16usize);
+    let scratch = root.join("out").join(format!("scratch-{}-{}", id, std::process::id()));
+    let ctx = Ctx {
+        corpus: corpus::Corpus::load(&root),
+        findings: findings::Findings::load(&root),
+        root,
+        tier,
+        seed,
+        threads,
+        scratch: scratch.clone(),
+        replay: replay.is_some(),
+    };
+    engine::install_panic_hook();
+    let prop = match props::by_id(&id) {
+        Some(p) => p,
+        None => {
+            eprintln!("unknown property {}", id);
+            std::process::exit(2);
+        }
+    };
+    let code = match replay {
+        Some(path) => engine::replay(prop.as_ref(), &ctx, &path),
+        None => engine::check(prop.as_ref(), &ctx, only.as_deref()),
+    };
+    let _ = std::fs::remove_dir_all(&scratch);
+    std::process::exit(code);
+}
